@@ -25,7 +25,7 @@ pub async fn get_request_addr(stream: &mut TcpStream) -> anyhow::Result<Address>
         match next {
             Proxy::Http(address) => Ok(address),
             Proxy::Https(address) => {
-                let _ = stream.read(&mut [0; 1024]).await?;
+                consume_request_head(stream).await?;
                 stream.write_all(b"HTTP/1.1 200 Connection established\r\n\r\n").await?;
                 Ok(address)
             }
@@ -53,18 +53,39 @@ async fn recognize(stream: &mut TcpStream) -> Result<Proxy, anyhow::Error> {
         Ok(Proxy::Socks5)
     } else {
         let mut buf = [0; 1024];
-        let len = stream.peek(&mut buf).await?;
-        let mut headers = [];
-        let mut req = httparse::Request::new(&mut headers);
-        match (req.parse(&buf[..len]), req.path, req.method) {
-            (_, Some(path), Some(method)) => Ok(recognize_http(method, path)?),
-            (_, None, Some(_)) => {
-                stream.write_all(b"HTTP/1.1 414 URI Too Long\r\n\r\n").await?;
-                stream.shutdown().await?;
-                Ok(Proxy::Error("URI too long".to_owned()))
+        loop {
+            let len = stream.peek(&mut buf).await?;
+            let mut headers = [];
+            let mut req = httparse::Request::new(&mut headers);
+            match (req.parse(&buf[..len]), req.path, req.method) {
+                (_, Some(path), Some(method)) => return Ok(recognize_http(method, path)?),
+                // the request line is still in flight (it may be split across segments): wait for the rest of it
+                (Ok(httparse::Status::Partial), _, _) if 0 < len && len < buf.len() => tokio::time::sleep(Duration::from_millis(10)).await,
+                (_, None, Some(_)) => {
+                    stream.write_all(b"HTTP/1.1 414 URI Too Long\r\n\r\n").await?;
+                    stream.shutdown().await?;
+                    return Ok(Proxy::Error("URI too long".to_owned()));
+                }
+                _ => return Ok(Proxy::Unknown),
             }
-            _ => Ok(Proxy::Unknown),
         }
+    }
+}
+
+/// Consume the head of a CONNECT request up to and including its empty line, and nothing after it:
+/// the head may arrive in several segments, and what follows it belongs to the tunnel
+async fn consume_request_head(stream: &mut TcpStream) -> anyhow::Result<()> {
+    let mut buf = [0; 8192];
+    loop {
+        let len = stream.peek(&mut buf).await?;
+        if let Some(end) = buf[..len].windows(4).position(|w| w == b"\r\n\r\n") {
+            stream.read_exact(&mut buf[..end + 4]).await?;
+            return Ok(());
+        }
+        if len == 0 || len == buf.len() {
+            bail!("incomplete or oversized CONNECT request head");
+        }
+        tokio::time::sleep(Duration::from_millis(10)).await;
     }
 }
 
